@@ -19,6 +19,9 @@ IsMin(h) == h \in live /\ \A g \in live : pr[g] >= pr[h]
 Init == live = {} /\ pr = [h \in 0..MaxH |-> 0] /\ next = 1 /\ last = R("Init", <<>>, <<>>)
 Push(p) == /\ next <= MaxH /\ live' = live \cup {next} /\ pr' = [pr EXCEPT ![next] = p] /\ next' = next + 1
            /\ last' = R("Push", <<p>>, <<next>>)
+\* PushElement with an element that has left the heap (popped or removed): the same handle is live again
+Repush(h) == /\ h \in Created /\ h \notin live
+             /\ live' = live \cup {h} /\ last' = R("Repush", <<h>>, <<>>) /\ UNCHANGED <<pr, next>>
 \* any minimal live handle may come out
 Pop == \/ /\ live = {} /\ last' = R("Pop", <<>>, <<0, 0>>) /\ UNCHANGED <<live, pr, next>>
        \/ \E h \in live : /\ IsMin(h) /\ live' = live \ {h} /\ last' = R("Pop", <<>>, <<h, pr[h]>>)
